@@ -32,7 +32,11 @@ SIGNATURES
       "dict_reset":b}], "terminate": bool}. Returns {"hex", "expect_hex", "ref" ("ok"|"err"), "ref_equal",
       "chunks": [[offset, payload_len]..]}: the stream realised by the independent serialiser, cross-checked
       against liblzma.
-  lzdecoder_replay(ctx, kind, consts, n_behaviours, seed, name="") -> dict
+  lzdecoder_behaviours(ctx, consts, n, seed, depth=400, name="") -> [behaviour]
+      TLC simulation of LzDecoder.tla with KeepHist = TRUE; a behaviour is the list of history entries
+      ["read",k,n] / ["lit",id] / ["match",dist,len] / ["bad",dist] / ["chunk",kind,u,reset,ids] / ["end"] / ["marker"] / ["total",t].
+  lzdecoder_replay(ctx, kind, consts, n_behaviours, seed, name="", sig_base=None, features=None, target=None,
+                   behaviours=None) -> dict
       Strict replay of LzDecoder.tla: TLC (simulation mode) chooses symbol scripts AND read sizes; every behaviour
       is forged into a real stream, cross-checked with liblzma, and read through the real LZMAReader /
       LZMA2Reader with exactly the scripted read sizes; per call the number of bytes, the bytes themselves and the
@@ -280,9 +284,9 @@ def lzdecoder_behaviours(ctx, consts, n, seed, depth=400, name=""):
     return hs
 
 
-def lzdecoder_replay(ctx, kind, consts, n_behaviours, seed, name="", sig_base=None):
+def lzdecoder_replay(ctx, kind, consts, n_behaviours, seed, name="", sig_base=None, features=None, target=None, behaviours=None):
     B = int(consts["B"])
-    hs = lzdecoder_behaviours(ctx, consts, n_behaviours, seed, name=name)
+    hs = behaviours if behaviours is not None else lzdecoder_behaviours(ctx, consts, n_behaviours, seed, name=name)
     if not hs:
         raise ToolError(f"LzDecoder simulation {name} produced no complete behaviour")
     jobs, meta = [], []
@@ -304,7 +308,7 @@ def lzdecoder_replay(ctx, kind, consts, n_behaviours, seed, name="", sig_base=No
                       "size": [h for h in beh if h[0] == "total"][0][1] if known else 0, "dict": 4096})
         jobs.append(j)
         meta.append((beh, expect, bad))
-    res = run_sym_jobs(jobs)
+    res = run_sym_jobs(jobs, features=features, target=target)
     stats = {"behaviours": len(jobs), "calls": 0, "zero_reads": 0, "split_matches": 0, "wraps": 0, "bad_dist": 0,
              "forge_rejected": 0, "mismatch": 0, "events_runs": []}
     for j, (beh, expect, bad), r in zip(jobs, meta, res):
